@@ -25,6 +25,9 @@ CLAIMED = {
  "C07": dict(cat="model_checking", design="§4 C07", technique="node's own producer (Mempool::bundle_block) driven by TLC/seeded scenarios; produced block must be adopted by producer and replica; honest builder blocks judged valid by Ledger.tla must be accepted",
    text="Whenever the node's producer emits a block it is serialised, delivered to the producer and to a replica holding the same chain, and both must adopt it; additionally every block produced by Block::create on an honest branch whose transactions satisfy the spec's rules must be accepted.",
    note="pool contents from the MC_Ledger pool actions and the seeded economy generator (fees, paths, tickets, window wrap)"),
+ "C11": dict(cat="model_checking", design="§4 C11", technique="TLC on Node.tla/MC_Node.tla (handler protocol: no crash outcome, NonInterference as an action property, completion of honest synchronisation under weak fairness) + TLC-simulated behaviours replayed on a whole node (routing, verification and consensus handlers stepped call by call) + trace validation against NodeTrace.tla of a twin run (node with / without the hostile inputs)",
+   text="Node.tla has one action per handler call (connection events, announcements, fetched blocks, transactions, junk, one item of an internal queue); hostile input never changes HonestView, the tip is monotone, only valid items reach the consensus queue, and honest synchronisation completes under fairness whatever hostile input is interleaved. Behaviours of the bounded model (TLC -simulate) and a catalogue of 55 hostile message / fetched-block kinds (before and after the attacker's handshake, from opened and never-opened connections, floods beyond the rate limits, partially drained internal queues) are replayed on two real nodes in lockstep - one receives everything, the other only the acceptable inputs. NodeTrace demands that every handler call returns (panic or 20 s stall = violation), that the honest-visible projections (tip, chain, spendable set, pool, honest peers' records and fetch queues, messages sent to honest peers) stay equal, and that both end on the honest tip. Panics in the ledger scenario family (adversarial blocks and transactions) are reported here too.",
+   note="hostile = rejected-by-construction inputs of the catalogue; sequences are sampled (simulation + random), exhaustive only in the bounded model"),
  "C13": dict(cat="model_checking", design="§4 C13", technique="TLA+ AtrViolations + MC_Ledger Rebroadcast model (NothingExpiredLingers) + trace validation over window-wrapping histories",
    text="For every adopted block past the window the monitor computes the set of outputs leaving the window from its own ledger and checks that rebroadcast transactions consume only those, each once, preserve the owner and produce ATR outputs; spending the original after rebroadcast is part of the adversary catalogue (spent_input).",
    note="G in {2,3,4,6}; NFT bound triples not generated"),
